@@ -5,12 +5,15 @@ import Qfx.Drv.ValMon
 import Qfx.Drv.Sched
 import Qfx.Drv.Dict
 import Qfx.Drv.DictMon
+import Qfx.Drv.Valid
+import Qfx.Drv.ValidMon
 namespace Qfx.Drv
 
 def families : List (String × Family) :=
   [ ("val", valFamily), ("val-mon", valMonFamily)
   , ("sched", schedFamily)
   , ("dict", dictFamily), ("dict-mon", dictMonFamily)
+  , ("valid", validFamily), ("valid-mon", validMonFamily)
   ]
 
 end Qfx.Drv
